@@ -83,6 +83,9 @@ func sacrificeMain() {
 		p := parse.New(s)
 		res, perr := p.Parse()
 		ns := time.Since(t0).Nanoseconds()
+		// at the moment Parse returns the lexing goroutine must have closed its channel (Parse drains it): a
+		// lexer that is still working then is background work left running, however soon it ends by itself
+		lexerDone := p.LexerDone()
 		rep := parseReport{Ok: perr == nil, Ns: ns, Pulled: p.TokensPulled(), Cursor: p.Cursor()}
 		// goroutines still alive after a short settle
 		after := runtime.NumGoroutine()
@@ -93,6 +96,9 @@ func sacrificeMain() {
 			after = runtime.NumGoroutine()
 		}
 		rep.Leak = after - before
+		if !lexerDone {
+			rep.Leak += 1000 // reported as 1000 goroutines "left": the model predicts 0
+		}
 		if perr == nil {
 			rep.Tree = blockToTerm(res.Program)
 		}
